@@ -459,7 +459,12 @@ func (p *parser) or() (Expr, error) {
 		return nil, err
 	}
 	for p.accept("||") {
-		r, err := p.and()
+		var r Expr
+		if t := p.peek(); t.k == tIdent && (t.s == "forall" || t.s == "exists") {
+			r, err = p.expr()
+		} else {
+			r, err = p.and()
+		}
 		if err != nil {
 			return nil, err
 		}
